@@ -76,7 +76,7 @@ def pred_instance(points, skel, score=1.0, point_scores=None, track=None):
     return sio.PredictedInstance.from_numpy(pts, skeleton=skel, point_scores=np.asarray(point_scores, float), score=float(score), track=track)
 
 
-def coded_video(pid, name, n_frames, H, W, mode="rgb"):
+def coded_video(pid, name, n_frames, H, W, mode="rgb", code_step=1):
     """Raw HDF5 video whose pixels encode their own coordinates (see vf/geom.py).
 
     mode "rgb": R = x+OFFSET, G = y+OFFSET, B = 128+frame; "x" / "y": a single coded channel in R
@@ -86,7 +86,7 @@ def coded_video(pid, name, n_frames, H, W, mode="rgb"):
 
     frames = np.zeros((n_frames, H, W, 3), np.uint8)
     for f in range(n_frames):
-        fr = geom.ramp_frame_uint8(H, W, f)
+        fr = geom.ramp_frame_uint8(H, W, f * code_step)
         if mode == "x":
             fr = np.stack([fr[..., 0], np.zeros_like(fr[..., 0]), np.zeros_like(fr[..., 0])], -1)
         elif mode == "y":
